@@ -30,6 +30,7 @@ func c11Env(text string) map[string]PV {
 func c11Operands() []*PE {
 	return []*PE{leafNum(0), leafNum(1), leafNum(2), leafNum(10), bin("-", leafNum(0), leafNum(3)),
 		leafStr(""), leafStr("a"), leafStr("b"), leafStr("2"), leafStr("10"), leafStr("x1"),
+		leafNum(9223372036854775807), bin("-", leafNum(0), leafNum(9223372036854775807)),
 		leafStr("010"), leafStr("0x10"), leafStr("1_0"), leafStr("-5"), leafStr("+5"), leafStr(" 5"), leafStr("1e1"),
 		leafBool(true), leafBool(false), leafVar("match", TStr), leafVar("matchLength", TNum), leafVar("unset", TStr)}
 }
